@@ -227,4 +227,143 @@ theorem docDesignates_eq (s : JobList) (t : Str) :
             · rw [if_pos hd, if_pos hd]
             · rw [if_neg hd, if_neg hd]
 
+/-! ### which slots `fg` and `bg` touch -/
+
+theorem update_others (s : JobList) (pid idx : Nat) (st : PState) (job : Job)
+    (hl : lookup s.pids pid = some idx) (hg : gets s.entries idx = some job) :
+    (∀ k, k ≠ idx → gets (s.updateStatus pid st).2.entries k = gets s.entries k) ∧
+    lookup (s.updateStatus pid st).2.pids pid = some idx ∧
+    gets (s.updateStatus pid st).2.entries idx =
+      some { job with state := st, changed := job.changed || decide (job.expected ≠ some st), expected := none } := by
+  obtain ⟨g1, g2, _⟩ := update_get s pid idx st job hl hg
+  refine ⟨fun k hk => by rw [g1 k]; simp [hk], by rw [g2]; exact hl, by rw [g1 idx]; simp⟩
+
+/-- `fg::resume_job_by_index` touches only the slot of the resumed job, and vacates it only if the
+    job ends in a state that is not alive -/
+theorem fgResume_slots (s : JobList) (h : Inv s) (index : Nat) (outcome : PState) (job : Job)
+    (hg : gets s.entries index = some job) (hout : outcome ≠ .running) :
+    (∀ k, k ≠ index → gets (fgResume s index outcome).2.entries k = gets s.entries k) ∧
+    (gets (fgResume s index outcome).2.entries index = none →
+      (if job.state.isAlive then outcome else job.state).isAlive = false) := by
+  have hl0 : lookup s.pids job.pid = some index := (h.p job.pid index).mpr ⟨job, hg, rfl⟩
+  unfold fgResume
+  simp only [hg]
+  cases ho : job.owned with
+  | false => simp [hg]
+  | true =>
+    cases hc : job.jc with
+    | false => simp [hg]
+    | true =>
+      simp only [Bool.not_true, Bool.false_eq_true, if_false]
+      cases ha : job.state.isAlive with
+      | false =>
+        simp only [Bool.false_eq_true, if_false]
+        refine ⟨fun k hk => by rw [remove_gets]; simp [hk], fun _ => ha⟩
+      | true =>
+        simp only [if_true]
+        -- the table after the `Running` report, if there is one
+        have key : ∃ s1 j1, (if job.state.isStopped = true then (s.updateStatus job.pid .running).2 else s) = s1 ∧
+            (∀ k, k ≠ index → gets s1.entries k = gets s.entries k) ∧
+            lookup s1.pids job.pid = some index ∧ gets s1.entries index = some j1 := by
+          cases hs : job.state.isStopped with
+          | true =>
+            obtain ⟨u1, u2, u3⟩ := update_others s job.pid index .running job hl0 hg
+            exact ⟨_, _, by simp, u1, u2, u3⟩
+          | false => exact ⟨s, job, by simp, fun _ _ => rfl, hl0, hg⟩
+        obtain ⟨s1, j1, e1, o1, l1, g1⟩ := key
+        rw [e1]
+        obtain ⟨u1, _, u3⟩ := update_others s1 job.pid index outcome j1 l1 g1
+        cases hso : outcome.isStopped with
+        | true =>
+          simp only [if_true]
+          refine ⟨fun k hk => by rw [u1 k hk, o1 k hk], fun hv => ?_⟩
+          rw [u3] at hv; cases hv
+        | false =>
+          simp only [Bool.false_eq_true, if_false]
+          refine ⟨fun k hk => by rw [remove_gets]; simp only [hk, if_false]; rw [u1 k hk, o1 k hk], fun _ => ?_⟩
+          cases outcome with
+          | running => exact absurd rfl hout
+          | stopped n => simp [PState.isStopped] at hso
+          | exited n => rfl
+          | signaled n c => rfl
+
+/-- pid and recorded state of every slot are the same in both tables -/
+def SameStates (s s' : JobList) : Prop :=
+  ∀ k, (gets s'.entries k).map (fun j => (j.pid, j.state)) = (gets s.entries k).map (fun j => (j.pid, j.state))
+
+theorem SameStates.refl (s : JobList) : SameStates s s := fun _ => rfl
+
+theorem SameStates.trans {a b c : JobList} (h1 : SameStates a b) (h2 : SameStates b c) : SameStates a c :=
+  fun k => (h2 k).trans (h1 k)
+
+theorem sameStates_of_entries_eq {s s' : JobList} (h : s'.entries = s.entries) : SameStates s s' := by
+  intro k; rw [h]
+
+theorem expect_sameStates (s : JobList) (i : Nat) (st : Option PState) : SameStates s (s.expect i st) := by
+  unfold JobList.expect
+  cases hg : gets s.entries i with
+  | none => exact SameStates.refl s
+  | some j =>
+    intro k
+    simp only
+    rw [gets_set _ _ _ _ (gets_some_lt hg)]
+    by_cases hk : k = i
+    · subst hk; simp [hg]
+    · simp [hk]
+
+theorem bgResume_sameStates (s : JobList) (index : Nat) : SameStates s (bgResume s index).2 := by
+  rcases bgResume_table s index with e | ⟨job, _, _, _, e, _⟩ <;> rw [e]
+  · exact SameStates.refl s
+  · unfold bgTable
+    have h1 : SameStates s (if job.state.isAlive then s.expect index (some .running) else s) := by
+      split
+      · exact expect_sameStates s index _
+      · exact SameStates.refl s
+    refine h1.trans (sameStates_of_entries_eq ?_)
+    rw [(setCurrentOk_entries _ _).1]
+    rfl
+
+theorem bgLoop_sameStates (ops : List Str) (s : JobList) (out : Str) (errs : List String) :
+    SameStates s (bgLoop ops s out errs).2 := by
+  induction ops generalizing s out errs with
+  | nil => exact SameStates.refl s
+  | cons op rest ih =>
+    unfold bgLoop
+    have h1 : SameStates s (bgResumeId s op).2 := by
+      unfold bgResumeId
+      cases parseJobId op with
+      | none => exact SameStates.refl s
+      | some id =>
+        simp only
+        cases id.find s with
+        | error e => exact SameStates.refl s
+        | ok index => exact bgResume_sameStates s index
+    cases hr : bgResumeId s op with
+    | mk r s' =>
+      rw [hr] at h1
+      cases r with
+      | ok line => exact h1.trans (ih _ _ _)
+      | error e => exact h1.trans (ih _ _ _)
+
+theorem bgBuiltin_sameStates (s : JobList) (m : Bool) (args : List Str) : SameStates s (bgBuiltin s m args).2 := by
+  unfold bgBuiltin
+  cases parseArgs [] args with
+  | none => exact SameStates.refl s
+  | some r =>
+    obtain ⟨opts, operands⟩ := r
+    simp only
+    cases m with
+    | false => exact SameStates.refl s
+    | true =>
+      simp only [Bool.not_true, Bool.false_eq_true, if_false]
+      split
+      · cases s.currentJob with
+        | none => exact SameStates.refl s
+        | some index =>
+          simp only
+          have h1 := bgResume_sameStates s index
+          cases hr : bgResume s index with
+          | mk r s' => rw [hr] at h1; cases r <;> exact h1
+      · exact bgLoop_sameStates _ _ _ _
+
 end YashModel.Job
